@@ -50,6 +50,10 @@ def gen_cases(rng, tier):
     for w in ("#in", "#lambda", "a.#in", "a.#lambda", "a.b.#lambda.x", "#in.lambda", "#lambda.in", "in.b", "lambda.b", "a.in.b",
               "#p.in", "#p.lambda", "in.#p", "lambda.#in", "a.lambda.#in"):
         texts += [w, f"{w} + 1", f"2*{w} - x", f"{w}/{w}", f"f({w})"]
+    # namespaced function names whose last component spells a built-in: one name, NOT the built-in
+    for f in ("max", "Min", "mod", "ceil", "floor", "sum", "prod", "log2", "sqrt", "abs", "round", "exp", "sin", "gamma", "multiplicity"):
+        for pre in ("lib.", "a.b."):
+            texts += [f"{pre}{f}(x, y)", f"{pre}{f}(x) + 1", f"2 * {pre}{f}(y, 3) - x"]
     # functions
     fn = ["Max(x, y)", "MAX(x, 2)", "min(x, y) + 1", "CEIL(x / 2)", "ceiling(x / 3)", "Floor(x / 2)", "mod(x, 3)", "MOD(7, y)",
           "Log2(x)", "log2(x) * LOG2(y)", "foo(x, y)", "Foo(y, x)", "foo(x, y) - foo(y, x)", "g(f(x), f(f(y)))", "f(x + 1, y * 2, 3)",
